@@ -106,6 +106,8 @@ type Config struct {
 	MaxDepth int
 	// Stubs replace functions by native models; key = fn.String().
 	Stubs map[string]ExtFn
+	// Summaries: pure scalar functions folded into ite terms at the call site (see summary.go).
+	Summaries map[string]bool
 	// Params: concrete harness parameters (bounds).
 	Params map[string]int64
 	// NondetMapOrder: map range order controlled by symbolic inputs.
@@ -561,6 +563,11 @@ func (in *Interp) callFunction(fn *ssa.Function, args []Value, env []Value) Valu
 	}
 	if fi.ext != nil {
 		return fi.ext(in, fn, args)
+	}
+	if in.Cfg.Summaries != nil && in.Cfg.Summaries[name] {
+		if r, ok := in.trySummary(fn, args); ok {
+			return r
+		}
 	}
 	if fi.isInit {
 		// package initialiser: only for white-listed packages, and lazily: the
